@@ -296,6 +296,14 @@ theorem C07_cx_resolve_underscores : resolveOld [true] [true, true, false] = .er
 
 example : resolve [true] [true, true, false] = .ok ([false], [false]) := by decide
 
+/-! ### newObject under a class / sql_table object -/
+
+theorem newObject_total (b : Bool) (c : Crash) : newObject b ≠ .error c := by simp [newObject]
+
+/-- Counterexample (replayed: `d: {shape: class; f0}⏎d: {c: {_.A.B <-> b}}` → assignment to entry in nil map;
+    reported by agent-sem, also `shape: sql_table⏎A: {_.z.y -> b}`) -/
+theorem C07_cx_class_scope_child : newObjectOld true = .error .nilMapWrite := by decide
+
 /-! ### class application -/
 
 /-- Counterexample (replayed: `classes: {a: {class: a}}⏎x.class: a` → fatal stack overflow): the old
@@ -366,39 +374,57 @@ theorem foldl_ok {α : Type} (f : α → Except Crash Nat) (rs : List α) (init 
     simp only [List.foldl_cons, hn]
     exact ih (init + n) (fun r' hr' => h r' (List.mem_cons_of_mem _ hr'))
 
-/-- with the class stack, the recursion depth is bounded by the number of classes: the `stackOverflow`
-    branch of the model is unreachable whenever the fuel exceeds the classes not yet on the stack -/
-theorem applyClass_fuel_enough (env : ClassEnv) : ∀ (fuel : Nat) (stack : List String) (c : String),
-    free env stack < fuel → ∃ n, applyClass env fuel stack c = .ok n := by
+/-- the recursion depth of a guarded walk is bounded by the number of keys: the `stackOverflow` branch of the
+    model is unreachable whenever the fuel exceeds the keys not yet on the stack -/
+theorem guardedWalk_fuel_enough (hit node : Nat) (env : ClassEnv) : ∀ (fuel : Nat) (stack : List String) (c : String),
+    free env stack < fuel → ∃ n, guardedWalk hit node env fuel stack c = .ok n := by
   intro fuel
   induction fuel with
   | zero => intro stack c h; omega
   | succ k ih =>
     intro stack c h
-    unfold applyClass
+    unfold guardedWalk
     by_cases hs : stack.contains c
-    · rw [if_pos hs]; exact ⟨0, rfl⟩
+    · rw [if_pos hs]; exact ⟨hit, rfl⟩
     · rw [if_neg hs]
       cases hr : env.refs c with
       | none => simp
       | some rs =>
         simp only
         have hlt := free_push_lt (by simpa using hs) (refs_mem hr)
-        apply foldl_ok (fun r => applyClass env k (c :: stack) r) rs 1
+        apply foldl_ok (fun r => guardedWalk hit node env k (c :: stack) r) rs node
         intro r _
         exact ih (c :: stack) r (by omega)
 
-theorem applyClass_total (env : ClassEnv) (c : String) (e : Crash) :
-    applyClass env (env.length + 1) [] c ≠ .error e := by
+theorem guardedWalk_total (hit node : Nat) (env : ClassEnv) (c : String) (e : Crash) :
+    guardedWalk hit node env (env.length + 1) [] c ≠ .error e := by
   have hf : free env [] < env.length + 1 := by
     unfold free
     have := List.countP_le_length (p := fun kv : String × List String => !([] : List String).contains kv.1) (l := env)
     omega
-  obtain ⟨n, hn⟩ := applyClass_fuel_enough env (env.length + 1) [] c hf
+  obtain ⟨n, hn⟩ := guardedWalk_fuel_enough hit node env (env.length + 1) [] c hf
   rw [hn]; simp
+
+/-- class application with the class stack terminates within |classes|+1 frames -/
+theorem applyClass_total (env : ClassEnv) (c : String) (e : Crash) :
+    applyClass env (env.length + 1) [] c ≠ .error e := guardedWalk_total 0 1 env c e
+
+/-- `import_terminates`: with the cycle test the import recursion is at most |files|+1 deep, whatever the files
+    import (cycles included) -/
+theorem import_terminates (files : ClassEnv) (root : String) (e : Crash) :
+    importWalk files (files.length + 1) [] root ≠ .error e := guardedWalk_total 1 0 files root e
+
+example : importWalk [("index", ["x"]), ("x", ["y"]), ("y", ["x"])] 4 [] "index" = .ok 1 := by decide
+example : importWalk [("index", ["x", "y"]), ("x", ["y"]), ("y", [])] 4 [] "index" = .ok 0 := by decide
 
 example : applyClass [("a", ["a"])] 2 [] "a" = .ok 1 := by decide
 example : applyClass [("a", ["b"]), ("b", ["a", "c"]), ("c", [])] 4 [] "a" = .ok 3 := by decide
+
+/-- `compileKey`'s glob guard has the same discipline (`globRefContextStack`: a glob context that `Equal`s one
+    already on the stack is not re-applied): with contexts as keys and "applying context c makes the contexts
+    `refs c` due" as edges, the re-application recursion is bounded by the number of distinct glob contexts. -/
+theorem glob_guard_terminates (ctxs : ClassEnv) (c : String) (e : Crash) :
+    guardedWalk 0 1 ctxs (ctxs.length + 1) [] c ≠ .error e := guardedWalk_total 0 1 ctxs c e
 
 /-! ### import stack -/
 
